@@ -1,19 +1,13 @@
 import JL.Generated.Fns
+import JL.Lemmas.TieAuto
 import JL.Tie.split_sign
+import JL.Tie.decimal_literal_len
 /-! tie: `parse_float_string`, as translated from the crate's current source, is the model's function - for every input -/
 namespace JL.Tie
 open JL
 
 theorem parse_float_string (s : Str) : Gen.parse_float_string s = JsOp.parseFloatString s := by
-  unfold Gen.parse_float_string JsOp.parseFloatString
-  -- the literal is made opaque first: unifying terms that contain `"…".toList` is very slow
-  generalize "Infinity".toList = inf
-  simp only [split_sign, rs, JsOp.trimStart]
-  split
-  · simp [*]
-    try rfl
-  · simp [*]
-    generalize JsOp.rustParseF64 _ = r
-    cases r <;> rfl
+  tie_close [Gen.parse_float_string, JsOp.parseFloatString, split_sign, decimal_literal_len, JsOp.trimStart]
+    splitting JsOp.splitSign JsOp.rustParseF64
 
 end JL.Tie
